@@ -222,7 +222,7 @@ def tlc_expect_violation(ctx, module, cfg, invariant, workers=4, timeout=900):
     counterexample to the named invariant. If it does not, the specification cannot tell the two designs apart - that is a
     vacuous specification (infrastructure error), never a violation of the code."""
     rc, out, wall = _tlc(ctx, module, cfg, workers, timeout=timeout)
-    if ("Invariant %s is violated" % invariant) not in out:
+    if ("Invariant %s is violated" % invariant) not in out and ("Action property %s is violated" % invariant) not in out:
         raise Infra("design demo %s/%s: TLC did not report a counterexample to %s:\n%s" % (module, cfg, invariant, "\n".join(out.splitlines()[-25:])))
     distinct, generated = _stats(out)
     ctx.tlc_runs.append({"loop": "A-negative-control", "module": module, "cfg": cfg, "expected_counterexample_to": invariant, "found": True,
